@@ -75,11 +75,19 @@ func VerifHarness_C04_logon_gap() {
 	chunk := verifConc(ndInt("chunk", 0, 2))
 	r.s.ResendRequestChunkSize = chunk
 	T := ndInt("T", verifSeqLo(), 50)
-	r.setCounters(T, ndInt("N", 1, 9))
+	N := ndInt("N", 1, 9)
+	r.setCounters(T, N)
 	r.s.State = logonState{}
 	S := ndInt("S", verifSeqLo(), 60)
 	verifAssume(S > T)
-	r.s.fixMsgIn(r.s, r.inbound("A", S))
+	logon := r.inbound("A", S)
+	if ndBool("EnableNextExpectedMsgSeqNum") {
+		// the peer announces the number it expects from us (exactly our next one: nothing to resend on our side);
+		// what WE miss is still asked for with a ResendRequest
+		r.s.EnableNextExpectedMsgSeqNum = true
+		logon.Body.SetInt(tagNextExpectedMsgSeqNum, N)
+	}
+	r.s.fixMsgIn(r.s, logon)
 	r.pump()
 	ws := r.drain()
 	c04CheckRequest(ws, bs, T, S, chunk, "logon-gap")
